@@ -98,6 +98,74 @@ def ob_file_safe_escapes(ctx: Ctx) -> Outcome:
     return Outcome.ok("ast-shape+table", count=max(n, 1), decoded=sorted(decoded), escaped=sorted(escaped), rewritten_by_text_mode=sorted(rewritten))
 
 
+def probe_whitespace_tamper():
+    """a sealed document with a literal zone / frontmatter, tampered ONLY in white space at the end of a zone or frontmatter line
+    (content by C05): must be INVALID. -> (fails, text)"""
+    from octave_mcp.core.emitter import emit
+    from octave_mcp.core.parser import parse
+    from octave_mcp.core.sealer import SealStatus, seal_document, verify_seal
+
+    bad = []
+    src = ['===D===\nK::\n```md\nline one  \nline two\n```\nJ::1\n===END===\n', '---\ntitle: a\nbody: |\n  x\n---\n===D===\nJ::1\n===END===\n']
+    for text in src:
+        sealed = emit(seal_document(parse(text)))
+        for a, b in (("line one  \n", "line one\n"), ("line two\n", "line two \t\n"), ("title: a\n", "title: a  \n")):
+            if a not in sealed:
+                continue
+            t = sealed.replace(a, b, 1)
+            d2 = parse(t)
+            if emit(d2) == sealed:
+                continue
+            st = verify_seal(d2).status
+            if st != SealStatus.INVALID:
+                bad.append(f"sealed {sealed!r}; tampered only in trailing white space of a verbatim line {b!r}: verifies as {st.value}")
+    return bool(bad), "; ".join(bad[:2]) or "trailing-white-space tampers of zone / frontmatter lines are INVALID"
+
+
+def replay_whitespace_tamper():
+    return probe_whitespace_tamper()
+
+
+def ob_plain_emission(ctx: Ctx) -> Outcome:
+    """F2: the text a seal is computed over / verified against is the PLAIN canonical emission: every call of `emit` in the
+    sealer module passes the document and nothing else (format options run a line-based pass - trailing-space strip, blank
+    line / indent normalisation - that does not know literal zones or frontmatter, so distinct contents would share a text)."""
+    import ast
+
+    from verif import extract
+    from verif.common import shape_verdict
+
+    M = "octave_mcp.core.sealer"
+    try:
+        tree = extract.module_ast(M)
+    except Exception as e:  # noqa: BLE001
+        return Outcome.undecided("ast-shape", f"{type(e).__name__}: {e}")
+    problems, n = [], 0
+    emit_names = {"emit"}
+    for node in ast.walk(tree):
+        if isinstance(node, ast.ImportFrom) and node.module and node.module.endswith("emitter"):
+            for al in node.names:
+                if al.name == "emit":
+                    emit_names.add(al.asname or al.name)
+    for node in ast.walk(tree):
+        if isinstance(node, ast.Call) and ((isinstance(node.func, ast.Name) and node.func.id in emit_names) or (isinstance(node.func, ast.Attribute) and node.func.attr == "emit")):
+            n += 1
+            if len(node.args) != 1 or node.keywords or isinstance(node.args[0], ast.Starred):
+                problems.append(f"sealer L{node.lineno}: `{ast.unparse(node)[:80]}` passes more than the document to emit")
+        elif isinstance(node, ast.Name) and node.id in emit_names and isinstance(node.ctx, ast.Load):
+            pass
+    # emit handed on as a value (partial, alias) would escape the call check
+    calls = {id(c.func) for c in ast.walk(tree) if isinstance(c, ast.Call)}
+    for node in ast.walk(tree):
+        if isinstance(node, ast.Name) and node.id in emit_names and isinstance(node.ctx, ast.Load) and id(node) not in calls:
+            problems.append(f"sealer L{node.lineno}: `emit` is used as a value (alias / partial): the call check does not see how it is called")
+    if n == 0:
+        problems.append("no call of emit found in the sealer module")
+    if problems:
+        return shape_verdict("ast-shape", problems, probe_whitespace_tamper, max(n, 1), {"runner": "props.C15:replay_whitespace_tamper", "args": {}})
+    return Outcome.ok("ast-shape", count=n)
+
+
 def obligations(ctx: Ctx):
     P = PROPERTY
     obs = [
@@ -107,6 +175,7 @@ def obligations(ctx: Ctx):
         contract_ob(f"{P}.P3", "seal_document: unsealed members ++ SEAL(SCOPE, ALGORITHM, HASH = sha256(emit(unsealed)))", lambda: SC.SEAL, "contracts.sealer:SEAL"),
         contract_ob(f"{P}.P4.full", "verify_seal: VERIFIED iff sha256(emit(unsealed)) == stripped stored hash; first SEAL section decides", lambda: SC.VERIFY, "contracts.sealer:VERIFY"),
         contract_ob(f"{P}.P4.empty", "verify_seal: a SEAL section without assignments is NO_SEAL", lambda: SC.VERIFY_EMPTY, "contracts.sealer:VERIFY_EMPTY"),
+        Ob(f"{P}.F2", "F", "the sealed / verified text is the plain canonical emission: every call of emit in the sealer passes the document only (no format options, whose line-based pass would strip white space inside literal zones and frontmatter)", ["octave_mcp.core.sealer:seal_document", "octave_mcp.core.sealer:verify_seal"], ob_plain_emission),
         Ob(f"{P}.L1", "L", "seal algebra: verify∘seal = VERIFIED, re-seal stable, changed hash INVALID, no seal NO_SEAL", FUNCS, ob_lemma),
     ]
     try:
